@@ -226,6 +226,9 @@ func classify(pats []string, q rt.Req, want ref.Result) {
 	}
 	if q.Method != "GET" && q.Method != "POST" {
 		stats.Class("custom-method")
+		if want.Route >= 0 {
+			stats.Class("custom-method:matched")
+		}
 	}
 	if want.Backtracks >= 1 || len(want.Params) > 0 || want.HostFallback {
 		sp := append([]string(nil), pats...)
@@ -234,14 +237,14 @@ func classify(pats []string, q rt.Req, want ref.Result) {
 	}
 }
 
-var methods = []string{"GET", "GET", "GET", "GET", "POST", "FOO"}
+var methods = []string{"GET", "GET", "POST", "FOO", "PATCH", "FOO"}
 
 func genCase(t *rapid.T) *Case {
 	c := &Case{}
 	n := gen.IntR(t, 1, 10, "nroutes")
 	hostW := gen.Pick(t, []int{2, 2, 1000}, "hostweight")
 	var pool []string
-	multi := gen.IntR(t, 0, 3, "multi") == 0
+	multi := gen.IntR(t, 0, 9, "multi") < 4
 	for i := 0; i < n; i++ {
 		p := gen.Pattern(t, pool, hostW, false)
 		pool = append(pool, p)
